@@ -1,7 +1,18 @@
 // Engine `osc` (C01): one constructor call of the real library followed by every reader.
 // Op line / output line: see lean/Driver/OscEngine.lean (the two must print the same text).
-// Destination buffers, blob data and the block handed to the readers are exact-size heap
-// allocations, so any store or read outside them aborts under ASan.
+// Destination buffers, string and blob data and the block handed to the readers are exact-size
+// heap allocations, so any store or read outside them aborts under ASan.
+//
+// Pointer placement: malloc returns 16-aligned blocks, which would hide every alignment computed
+// from the *address* instead of the offset inside the message (OSC pads relative to the start of
+// the message).  The destination of a constructor and the block handed to the readers therefore
+// start at an offset 0..3 into their heap block (derived from the op line, so a replay is
+// stable; all four residues occur equally often); the bytes in front are a guard that must keep
+// its fill value.  The end of the block is still exact.
+//
+// Observables (C01's `observe_at`): return value, the message bytes buffer[0..ret), the size
+// query with the NULL buffer, and every reader.  Bytes behind the message and what happens
+// when the buffer is too small (beyond the return value) belong to C02 and are not printed.
 #include "common.h"
 #include <rtosc/rtosc.h>
 #include <rtosc/arg-val.h>
@@ -20,7 +31,7 @@ static void arm_watchdog() {
 
 struct Args {
     std::vector<rtosc_arg_t> a;                    // one per payload tag
-    std::vector<std::string> strs;                 // storage of string arguments
+    std::vector<std::unique_ptr<Exact>> strs;      // storage of string arguments (exact size, NUL included)
     std::vector<std::unique_ptr<Exact>> blobs;     // storage of blob data / midi
     std::vector<uint64_t> dbits;                   // 64-bit tokens as given (doubles in V mode)
 };
@@ -30,6 +41,7 @@ static bool has_payload(char t) { return t && strchr("isbfhtdSrmc", t); }
 static bool parse_args(const std::vector<std::string> &w, size_t from, Args &out) {
     size_t n = w.size() - from;
     out.a.resize(n);
+    out.strs.clear();
     out.strs.resize(n);
     out.dbits.assign(n, 0);
     if (n) memset(out.a.data(), 0, n * sizeof(rtosc_arg_t));
@@ -57,8 +69,9 @@ static bool parse_args(const std::vector<std::string> &w, size_t from, Args &out
             break;
         case 's':
             if (!unhex(body, b)) return false;
-            out.strs[k].assign((const char *)b.data(), b.size());
-            out.a[k].s = NULL;   // set below (vector storage is stable from here on)
+            b.push_back(0);
+            out.strs[k].reset(new Exact(b));
+            out.a[k].s = out.strs[k]->c();
             break;
         case 'b': {
             size_t c = body.find(':');
@@ -78,8 +91,6 @@ static bool parse_args(const std::vector<std::string> &w, size_t from, Args &out
             return false;
         }
     }
-    for (size_t k = 0; k < n; ++k)
-        if (w[from + k][0] == 's') out.a[k].s = out.strs[k].c_str();
     return true;
 }
 
@@ -185,11 +196,21 @@ static std::string show(const char *msg, char t, const rtosc_arg_t &v) {
     }
 }
 
-static std::string readers(const bytes &blockbytes) {
-    Exact blk(blockbytes);
-    const char *msg = blk.c();
+static const unsigned char GUARD = 0xEE;
+
+static bool guard_ok(const Exact &blk, size_t off) {
+    for (size_t i = 0; i < off; ++i)
+        if (blk.p[i] != GUARD) return false;
+    return true;
+}
+
+static std::string readers(const bytes &blockbytes, size_t off) {
+    bytes shifted(off, GUARD);                       // message at residue `off` mod 4
+    shifted.insert(shifted.end(), blockbytes.begin(), blockbytes.end());
+    Exact blk(shifted);
+    const char *msg = blk.c() + off;
     std::ostringstream o;
-    o << "len=" << rtosc_message_length(msg, blk.n);
+    o << "len=" << rtosc_message_length(msg, blk.n - off);
     const char *as = rtosc_argument_string(msg);
     o << " as=" << (as - msg) << ":" << hexs(as);
     unsigned n = rtosc_narguments(msg);
@@ -218,12 +239,23 @@ static std::string readers(const bytes &blockbytes) {
 static std::string step(const std::string &line) {
     arm_watchdog();
     auto w = words(line);
-    if (w.size() == 2 && w[0] == "R") {
+    // placement of the destination / of the block the readers get: two independent residues mod 4
+    size_t h = 0;
+    for (char c : line) h = h * 131 + (unsigned char)c;
+    size_t off_dst = h % 4, off_rd = (h / 4) % 4;
+    if (w.size() >= 2 && (w[0] == "R" || w[0] == "Q")) {      // further tokens are the oracle's
+        // R: rtosc_message_length of an encoded message followed by anything (value printed)
+        // Q: regression witnesses outside the property (malformed bytes): only "terminates, reads
+        //    inside the block, result <= n" is observed
         bytes m;
         if (!unhex(w[1], m)) return "bad-op";
-        Exact blk(m);
+        bytes shifted(off_rd, GUARD);
+        shifted.insert(shifted.end(), m.begin(), m.end());
+        Exact blk(shifted);
+        size_t len = rtosc_message_length(blk.c() + off_rd, m.size());
         std::ostringstream o;
-        o << "len=" << rtosc_message_length(blk.c(), blk.n);
+        if (w[0] == "R") o << "len=" << len;
+        else o << (len <= m.size() ? "len<=n" : "len>n");
         return o.str();
     }
     if (w.size() < 5) return "bad-op";
@@ -235,8 +267,10 @@ static std::string step(const std::string &line) {
     std::string saddr((const char *)addr.data(), addr.size()), stags((const char *)tags.data(), tags.size());
     bool null_buf = w[1] == "N";
     size_t cap = null_buf ? 0 : (size_t)atoll(w[1].c_str());
-    Exact dst(cap, 0xAA);
-    char *buf = null_buf ? NULL : dst.c();
+    if (null_buf) off_dst = 0;
+    Exact dst(off_dst + cap, 0xAA);
+    memset(dst.p, GUARD, off_dst);
+    char *buf = null_buf ? NULL : dst.c() + off_dst;
     size_t ret = 0, z = 0;
     if (mode == "A") {
         ret = rtosc_amessage(buf, cap, saddr.c_str(), stags.c_str(), A.a.data());
@@ -254,12 +288,16 @@ static std::string step(const std::string &line) {
     } else
         return "bad-op";
     std::ostringstream o;
-    o << "r=" << ret << " z=" << z << " b=" << (null_buf ? std::string("NULL") : hex(dst.p, cap));
+    o << "r=" << ret << " z=" << z << " b=";
+    if (null_buf) o << "NULL";
+    else if (ret > cap) o << "?";
+    else o << hex((unsigned char *)buf, ret);         // the message bytes only ("-" when ret = 0)
+    if (!guard_ok(dst, off_dst)) o << " stored-in-front-of-buffer";
     if (!null_buf && ret > cap) o << " ret-exceeds-len";
     else if (!null_buf && ret > 0) {
-        bytes blk(dst.p, dst.p + ret);
+        bytes blk((unsigned char *)buf, (unsigned char *)buf + ret);
         blk.insert(blk.end(), rest.begin(), rest.end());
-        o << " " << readers(blk);
+        o << " " << readers(blk, off_rd);
     }
     return o.str();
 }
